@@ -125,6 +125,7 @@ def run(prog, run):
     r8(prog, run, dec)
     r9(prog, run, enc)
     r10(prog, run, dec)
+    r11(prog, run)
 
 
 def r1(prog, run, enc, dec):
@@ -426,6 +427,7 @@ def r6(prog, run):
     f = top
     for g in cands:
         if any(g.nodes[i]['k'] == 'cond' and '::size()' in g.fmt(g.nodes[i]['c']) for i in range(len(g.nodes))) or \
+                any((b_.get('term') or {}).get('k') == 'if' and '::size()' in g.fmt(b_['term']['cond']) and g.binop(g.skip(b_['term']['cond'])) for b_ in g.blocks.values()) or \
                 any(n.get('cls') == 'QByteArray' and len(n.get('args', [])) == 2 and g.binop(n['args'][0]) and g.binop(n['args'][0])[0] == '-' for _, n in g.all_nodes('construct')):
             f = g
             break
@@ -742,3 +744,69 @@ def r10(prog, run, dec):
             run.ok(rid, dec.loc(i), '%s stored as read' % l['name'], nontrivial=False)
     if n_w < 4:
         raise AnalysisBroken('C14.R10: only %d text members written in decode' % n_w)
+
+
+# --------------------------------------------------------------------------- R11: one hash object, one message; distinct attribute numbers
+def r11(prog, run):
+    rid = run.rule('C14.R11', 'a hash object whose result() has been taken gets no further data without a reset() (followed through helpers that are handed the object): otherwise the '
+                              'inner hash of the HMAC covers the over-long key as well; and the attribute-type enumerators that encode() writes and decode() branches on are pairwise '
+                              'distinct numbers (a shared number makes decode() take the first branch for both)', floor=2)
+    top = prog.fn('generateHmac', unit='QXmppUtils.cpp')
+    run.instance(rid)
+
+    def event_of(g, nid):
+        n = g.nodes[nid]
+        if n['k'] == 'call' and (g.sym(n) or {}).get('record') == 'QCryptographicHash' and n.get('obj') is not None:
+            nm = (g.sym(n) or {}).get('name')
+            if nm in ('addData', 'result', 'reset', 'resultView'):
+                return {'addData': 'add', 'result': 'result', 'resultView': 'result', 'reset': 'reset'}[nm]
+        return None
+    seqs = cfgx.effect_sequences(prog, top, event_of)
+
+    def ends_taken(q, taken=False):
+        for e in q:
+            if e == 'result':
+                taken = True
+            elif e == 'reset':
+                taken = False
+        return taken
+    # a helper whose paths differ (it hashes only over-long keys) shows up as '?': it may leave the object with its result taken
+    helper_may_take = any(ends_taken(q) for _, n in top.calls() for g in prog.callee_fns(top, n)
+                          if g.entry is not None and g.file == top.file and any('QCryptographicHash' in (p_.get('t') or '') for p_ in g.params)
+                          for q in cfgx.effect_sequences(prog, g, event_of))
+    bad = None
+    for q in seqs:
+        taken = False
+        for e in q:
+            if e == 'result':
+                taken = True
+            elif e == 'reset':
+                taken = False
+            elif e == '?' and helper_may_take:
+                taken = True
+            elif e == 'add' and taken:
+                bad = q
+    if bad:
+        run.violation(rid, 'generateHmac#data-after-result', top.loc(),
+                      'generateHmac (with its helpers) feeds more data into a QCryptographicHash after result() was taken, without reset() (effect order %s): the digest then covers '
+                      'the earlier input too - for keys longer than the block the HMAC is no longer the RFC 2104 value' % list(bad))
+    else:
+        run.ok(rid, top.loc(), 'no data is added to a hash object after its result was taken (%d effect sequences)' % len(seqs))
+    en = None
+    for q, e in prog.enums.items():
+        if q.split('::')[-1] == 'AttributeType' and 'QXmppStun' in (e.get('file') or ''):
+            en = e
+    if en is None:
+        raise AnalysisBroken('C14.R11: the STUN AttributeType enum was not found')
+    run.instance(rid)
+    byv = {}
+    for e_ in en['enumerators']:
+        byv.setdefault(e_['v'], []).append(e_['name'])
+    dup = {v: ns for v, ns in byv.items() if len(ns) > 1}
+    if dup:
+        v, ns = sorted(dup.items())[0]
+        run.violation(rid, 'AttributeType#duplicate-number', 'src/base/QXmppStun.cpp:%s' % en.get('line', ''),
+                      'the attribute types %s share the number 0x%04x: encode() writes both under it and decode() takes the branch of the first, so the second never comes '
+                      'back and overwrites the first' % (' and '.join(ns), v))
+    else:
+        run.ok(rid, 'src/base/QXmppStun.cpp:%s' % en.get('line', ''), '%d attribute numbers, pairwise distinct' % len(en['enumerators']))
